@@ -318,13 +318,8 @@ func (e *Engine) isMatchDigitPrefilter(haystack []byte) bool {
 			}
 		}
 
-		pos = digitPos + 1
 		// Skip entire digit run when safe (same optimization as findIndicesDigitPrefilter)
-		if e.digitRunSkipSafe {
-			for pos < len(haystack) && haystack[pos] >= '0' && haystack[pos] <= '9' {
-				pos++
-			}
-		}
+		pos = e.skipDigitRun(haystack, digitPos)
 	}
 
 	return false
